@@ -231,6 +231,23 @@ def cases(depth, expr_depth, part=0, parts=1):
                           ('parenthesised', 'int par = (GN);'), ('unary', 'int neg = -GN;'), ('string_index', 'byte ch = "hello"[GN];'),
                           ('nested_literal_length', 'int cnt = [GN, GN, GN].length;')):
             yield f'global/mentions_global/{tag}', pre + decl + '\nempty @is_you() { }\n', True, ''
+        # a call stays a call whatever it is wrapped in
+        for tag, decl in (('negated', 'int bad = -ord(1);'), ('cast_to_int', 'int bad = ord(1) is int;'), ('cast_to_byte', "byte bad = ord(65) is byte;"),
+                          ('cast_to_bool_under_not', 'bool bad = not (ord(1) is bool);'), ('parenthesised', 'int bad = (ord(1));'), ('in_arithmetic', 'int bad = 1 + ord(1) * 2;'),
+                          ('in_comparison', 'bool bad = ord(1) < 2;'), ('as_index', 'int bad = [10, 20, 30][ord(1)];'), ('indexed_literal_item', 'int bad = [ord(1)][0];'),
+                          ('string_index', 'byte bad = "abc"[ord(1)];'), ('length_of_literal_with_call', 'int bad = [ord(1), 2].length;'),
+                          ('array_length_cast', 'int bad[ord(3) is int];'), ('array_length_arithmetic', 'int bad[ord(3) + 1];'), ('logic', 'bool bad = true and (ord(1) is bool);'),
+                          ('cast_chain', 'int bad = (ord(1) is byte) is int;'), ('literal_item_cast', 'byte[] bad = [ord(65) is byte];')):
+            yield f'global/wrapped_call/{tag}', pre + decl + '\nempty @is_you() { }\n', False, 'globals are initialised without calls'
+        # the flavour is part of a function's name: namesakes of different flavour (also of builtins) are distinct functions
+        yield ('global/namesakes/three_flavours', 'int f(int k) { return k; }\nint !f(int k) { !truth_is_defeat(k == 1); return k + 1; }\nint @f(int k) { return k + 2; }\n'
+               'empty @is_you(int n) { write(f(n)); write(@f(n)); try { write(!f(n)); } undo { } }\n', True, '')
+        yield ('global/namesakes/two_flavours_different_order', 'empty !g(int k) { !truth_is_defeat(k == 1); }\nempty g(int k) { write(k); }\n'
+               'empty @is_you(int n) { g(n); try { !g(n); } undo { } }\n', True, '')
+        yield ('global/namesakes/unflavoured_builtin_names', 'empty is_defeat() { write(1); }\nempty truth_is_defeat(bool b) { write(b); }\nempty is_you() { write(2); }\n'
+               'empty @is_you(int n) { is_defeat(); truth_is_defeat(n > 1); is_you(); }\n', True, '')
+        yield ('global/namesakes/flavoured_builtin_names', 'empty @write(int k) { write(k); }\nempty !sleep(int k) { sleep(k); !truth_is_defeat(k == 1); }\n'
+               'empty @is_you(int n) { @write(n); try { !sleep(n); } undo { } }\n', True, '')
         for tag, decl in (('call_with_global_argument', 'int bad = ord(GN);'), ('call_in_length_with_global', 'int bad[ord(GN)];'),
                           ('call_in_item_next_to_global', 'int[] bad = [GN, ord(1)];'), ('you_call', 'int bad = @you(GN);'), ('defeat_call', 'int bad = !dft(GN);')):
             yield f'global/mentions_global/{tag}', pre + decl + '\nempty @is_you() { }\n', False, 'globals are initialised without calls'
